@@ -135,7 +135,29 @@ def _normalised(col, cx: FnCtx) -> FnCtx:
 
 
 def _no_swallowing(col, rule="C18.R1"):
-    fns = [_normalised(col, cx) for cx in _update_path_functions(col)]
+    raw = _update_path_functions(col)
+    fns = [_normalised(col, cx) for cx in raw]
+    # a private helper whose every call on the update path was dissolved into its caller is judged there (with the arguments it
+    # is given), not once more on its own with opaque parameters
+    def _called_names(fn):
+        return {c.func.attr if isinstance(c.func, ast.Attribute) else getattr(c.func, "id", None) for c in A.calls(fn)}
+    dissolved = set()
+    for r_, n_ in zip(raw, fns):
+        if n_ is not r_:
+            dissolved_here = _called_names(r_.fn) - _called_names(n_.fn)
+            dissolved |= {("d", nm) for nm in dissolved_here}
+    still_called = set()
+    for n_ in fns:
+        still_called |= _called_names(n_.fn)
+    keep = []
+    for r_, n_ in zip(raw, fns):
+        nm = r_.fn.name
+        private = nm.startswith("_") and not nm.startswith("__") and nm not in ("_get_value", "_set_value", "_mk_value")
+        if private and ("d", nm) in dissolved and nm not in still_called and any(isinstance(x, ast.Try) for x in A.walk(r_.fn)):
+            col.count("helpers_judged_where_inlined", 1)
+            continue
+        keep.append(n_)
+    fns = keep
     col.count("update_path_functions", len(fns))
     for cx in fns:
         tries = [n for n in A.walk(cx.fn) if isinstance(n, ast.Try)]
@@ -170,8 +192,14 @@ def _no_swallowing(col, rule="C18.R1"):
                         body_ok = bool(after) and all(r.value is not None and A.src(r.value) in NAN for r in after)
                     # ... and the operands are evaluated before the try: a ZeroDivisionError raised *inside an operand* is a failure of
                     # the task like any other, not this division's
+                    def _opcall(c):
+                        # operator.truediv(lhs, rhs) on plain names is the division itself, spelled functionally
+                        return isinstance(c, ast.Call) and (A.dotted(c.func) or "").startswith("operator.") and not c.keywords \
+                            and all(isinstance(a_, ast.Name) for a_ in c.args)
+                    opfuncs = {id(c.func) for s in t.body for c in A.walk(s) if _opcall(c)}
                     narrow = all(isinstance(s, (ast.Return, ast.Assign, ast.Expr)) for s in t.body) and len(t.body) == 1 \
-                        and not any(isinstance(c, (ast.Call, ast.Attribute, ast.Subscript)) for s in t.body for c in A.walk(s))
+                        and not any(isinstance(c, (ast.Call, ast.Attribute, ast.Subscript)) and not _opcall(c) and id(c) not in opfuncs
+                                    for s in t.body for c in A.walk(s))
                     col.add(rule, f"{cx.qual}#documented-zero-division-guard", body_ok and narrow, cx.module.loc(h),
                             "the documented division-by-zero deviation: exactly ZeroDivisionError of the single division statement -> NaN",
                             f"try body: {A.src(t.body)[:60]}; handler: {A.src(h.body)[:40]}")
